@@ -25,7 +25,7 @@ func checkC09(c *Ctx) {
 	c.Decided = "the all-to-one collector records a vote only after VerifyPartialCert succeeded, only if no recorded vote for that block has the same signer, and only if the vote is signed by exactly one replica; " +
 		"the QC is created from exactly the recorded list for that block when its length reaches the configured quorum size (polarity checked) and is emitted as a new-view event; votes for blocks not newer than the high QC are dropped; " +
 		"first-miss votes are deferred until the next proposal, deferred misses fetch the block; the vote table is accessed only under its mutex (verification runs concurrently); " +
-		"the Kauri collector merges a contribution only after verifying it over the block's bytes and checking mergeability, emits when the merged participant count reaches the quorum size, with the QC built from the merged signature, the current view and the block hash."
+		"the Kauri collector merges a contribution only after verifying it over the block's bytes and checking mergeability, emits when the merged participant count reaches the quorum size, with the QC built from the merged signature, the current view and the block hash. A Kauri aggregation starts from a reset state holding the replica's own vote, and a single contribution replaces the aggregate only when it is empty."
 	c.NotDec = "arrival-order independence as such (follows from the set-like structure of the vote table, not separately proved); goroutine interleavings beyond lock discipline; Kauri tree timing."
 	c.Expect("C09.1", 3)
 	c.Expect("C09.7", 3)
